@@ -71,6 +71,10 @@ claim("C16", "exploration", MON + "panic monitor (catch_unwind around every poll
       "Mutated encodings against both decoders in both directions (child process), 84 wire-level boundary deadlines with a probe that must still be served, S-server/S-client scenarios with extreme ids and deadlines and duplicate/unknown-id floods under no / fmt / OpenTelemetry subscriber; a stall after an odd-but-well-formed message counts as a violation.",
       "known finding F7 (DelayQueue insert after >1.18 years without a fired timer) is matched by exact signature", "DESIGN.md 4/C16, 5.1")
 
+claim("C17", "exploration", MON + "generated programs: the real proc macro expands seeded service definitions, rustc compiles them, recording implementors and spying stubs observe every call",
+      "For 48 (quick) / 640 (thorough) generated services per seed every enabled method is called through the generated client over the in-memory transport and through a Stub-based client; the implementor's record (service, method, Debug of all arguments in order, context deadline and trace id) and the caller's result are compared, RequestName::name() is checked, and 10 colliding definitions must each fail to compile.",
+      "programs outside the generator's grammar (generic services, lifetimes, where clauses) are not produced", "DESIGN.md 2.7, 4/C17")
+
 ALL = ["C%02d" % i for i in range(1, 21)]
 
 def main():
